@@ -235,15 +235,19 @@ def _run_chain(layers, mi, pi, qi, bi, hk) -> None:
     method, path, params, data, headers = METHODS[mi], STRS[pi], copy.deepcopy(PARAMS[qi]), copy.deepcopy(BODIES[bi]), _headers(hk)
     # every connection of the chain, innermost first and then again in reverse: derived connections must not disturb the inner ones
     order = list(range(len(conns))) + list(range(len(conns) - 1, -1, -1))
-    for k in order:
-        what = f"layers={layers[:k]} {method} path={path!r} params={params} data={data!r} headers={headers}"
-        try:
-            req, resp = _send(conns[k], method, path, params, data, headers)
-        except Violation:
-            raise
-        except Exception as e:  # noqa
-            raise Violation(f"request-raises :: {what}: {type(e).__name__}: {e}")
-        check_request(req, resp, expected_request(address, models[k], method, path, params, data, headers), what)
+    # the same connections are then used with a path of the other shape (with / without a leading slash) and again with the
+    # first one: where a request goes must not depend on the requests made before
+    path2 = path.lstrip("/") or "b" if path.startswith("/") else "/" + path
+    for rnd, pth in enumerate((path, path2, path)):
+        for k in (order if rnd == 0 else range(len(conns))):
+            what = f"layers={layers[:k]} {method} path={pth!r} params={params} data={data!r} headers={headers}" + (f" (after requests with path {path!r})" if rnd else "")
+            try:
+                req, resp = _send(conns[k], method, pth, params, data, headers)
+            except Violation:
+                raise
+            except Exception as e:  # noqa
+                raise Violation(f"request-raises :: {what}: {type(e).__name__}: {e}")
+            check_request(req, resp, expected_request(address, models[k], method, pth, params, data, headers), what)
     for k, c in enumerate(conns):
         for j, d in enumerate(conns):
             if k != j and c.adapters is d.adapters:
